@@ -54,6 +54,9 @@ def items(tier, seed):
             out.append({"k": "getvalues", "a": "m", "ka": ka, "n": n, "to": "km"})
             out.append({"k": "getvalues", "a": "degC", "ka": ka, "n": n, "to": "degF"})
         out.append({"k": "fromscalars", "n": n})
+    for op in ("add", "sub", "mul"):  # zero divisors are outside the claim (A-NP), so no division here
+        for ka in KINDS:
+            out.append({"k": "op_after_validation", "op": op, "ka": ka, "kb": KINDS[(len(out)) % 3], "n": 2})
     for op in OPS:
         for ka in KINDS:
             for side in ("left", "right"):
@@ -156,6 +159,20 @@ def run(cfg, V):
             v = r.GetAbstractValue()
             out.update(vals=list(v), rq=qmap(r), ctype="ndarray" if isinstance(v, numpy.ndarray) else type(v).__name__, cls=type(r).__name__)
         return out
+    if k == "op_after_validation":
+        from .common import fresh_posc_db, pushed
+
+        db = fresh_posc_db()
+        with pushed(db):
+            db.AddCategory("c10 limited", "length", min_value=-1e30, max_value=1e30)
+            xa = [V["a%d" % i] for i in range(2)]
+            xb = [V["b%d" % i] for i in range(2)]
+            A = Array(_container(cfg["ka"], xa), "m", "c10 limited")
+            B = Array(_container(cfg["kb"], xb), "cm")
+            valid = A.IsValid()
+            r = _apply(cfg["op"], A, B)
+            s = [_apply(cfg["op"], Scalar(a, "m"), Scalar(b, "cm")) for a, b in zip(xa, xb)]
+            return {"valid": valid, "vals": list(r.GetAbstractValue()), "scalar": [x.GetValue() for x in s], "idx": [A[i] for i in range(2)], "want_idx": xa}
     if k == "op_number":
         xa = [V["a%d" % i] for i in range(cfg["n"])]
         kk = V["c0"]
@@ -226,6 +243,9 @@ def props(cfg, T, obs):
         if cfg.get("canary"):
             P.append(("canary:a+b has the elements of a", z3.And(*[approx(r, T["a%d" % i]) for i, r in enumerate(obs["vals"])])))
         return P
+    if k == "op_after_validation" and isinstance(obs, dict):
+        return [("after IsValid() in a category with limits, Array arithmetic and indexing still equal the element-wise Scalar results (original element order)",
+                 z3.And(z3.BoolVal(len(obs["vals"]) == 2), *[approx(a, b) for a, b in zip(obs["vals"], obs["scalar"])], *[term(a) == term(b) for a, b in zip(obs["idx"], obs["want_idx"])]))]
     if k == "op_number":
         if obs["res"] == "raised":
             return [("Array <op> number raises only where Scalar <op> number raises", not all(s[0] == "ok" for s in obs["scalar"]))]
